@@ -11,6 +11,10 @@
               several lengths, typed, 3-byte type number, implicit digest, pre-existing
               parameters digest) x unsigned/HMAC/ECDSA x payload absent/present
      longname names whose Name length itself is 252/253/254
+     forms    the representation of every name-valued parameter (packet name, each ForwardingHint delegation,
+              KeyLocator name) x every NonStrictName form x every count of components 0..2 (0..3) x 1..2 (1..3)
+              delegations with the forms mixed among them; FinalBlockId / payload as bytes, bytearray, memoryview.
+              Everywhere else the representation is left open (AnyForm: the executor rotates).
    Scale = 1 (quick) or 2 (thorough) selects the alphabets.                              *)
 EXTENDS NdnPackets
 CONSTANT Scale
@@ -39,8 +43,10 @@ SgSynBare(r, a) == [SgSyn(r, a) EXCEPT !.st = FALSE]  \* ... and leaves Signatur
 
 NoMeta == [p |-> FALSE, ct |-> 0, fp |-> 0, fbi |-> -1]
 Meta(ct, fp, fbi) == [p |-> TRUE, ct |-> ct, fp |-> fp, fbi |-> fbi]
+DefRep == [name |-> AnyForm, fh |-> <<>>, kl |-> AnyForm, fbi |-> "any", pay |-> "any"]
 Base(kind) == [kind |-> kind, name |-> <<G1>>, cbp |-> FALSE, mbf |-> FALSE, fh |-> <<>>, nonce |-> FALSE,
-               life |-> 0, hop |-> FALSE, app |-> -1, meta |-> NoMeta, content |-> -1, sg |-> NoSg, vp |-> FALSE]
+               life |-> 0, hop |-> FALSE, app |-> -1, meta |-> NoMeta, content |-> -1, sg |-> NoSg, vp |-> FALSE,
+               rep |-> DefRep]
 BaseI == Base("interest")
 BaseD == [Base("data") EXCEPT !.meta = Meta(1, 0, -1)]
 Kinds == {"interest", "data"}
@@ -109,5 +115,31 @@ LongName == { c \in { [BaseOf(k) EXCEPT !.name = nm, !.sg = s, !.app = IF k = "i
 BadDigest == { [BaseI EXCEPT !.name = nm, !.app = 5, !.sg = s, !.nonce = TRUE, !.life = 2] :
                  nm \in { <<G1, Comp(2, 0)>>, <<G1, Comp(2, 33)>>, <<Comp(2, 31)>>, <<Comp(2, 0), G1>>, <<G1, Comp(2, 1), G1>> },
                  s \in {NoSg, SgHmac} }
-CfgSpace == BadDigest \cup FieldsI \cup FieldsD \cup WidthsI \cup WidthsD \cup Bound \cup Names \cup LongName
+\* ---- slice: representations of the name-valued (and octet-string) parameters
+\* names of 0..2 (0..3) components - a tuple of exactly two looks like a (preference, name) pair of the 0.2 format;
+\* the second delegation starts with other components than the first, so that no two delegations of a hint are equal
+Counts == IF Thorough THEN 0..3 ELSE 0..2
+NameOf(n) == SubSeq(<<G1, Seg, G3>>, 1, n)
+NameOfAt(i, n) == IF i % 2 = 1 THEN NameOf(n) ELSE SubSeq(<<G3, G1, Seg>>, 1, n)
+Fm(b, i) == [box |-> b, item |-> i]
+FormsName == { [BaseOf(k) EXCEPT !.name = nm, !.rep.name = f, !.app = IF k = "interest" THEN n ELSE -1,
+                                 !.content = IF k = "data" THEN n ELSE -1] :
+                 k \in Kinds, f \in NameForms, nm \in { NameOf(i) : i \in Counts } \cup {<<G1, Pd>>, <<Pd, Seg>>}, n \in {-1, 3} }
+Deleg == { [f |-> f, n |-> n] : f \in NameForms, n \in Counts }
+DelegFew == { [f |-> Fm("list", "bytes"), n |-> 1], [f |-> Fm("tuple", "bytes"), n |-> 2], [f |-> Fm("tuple", "strs"), n |-> 2],
+              [f |-> Fm("uri", "none"), n |-> 0], [f |-> Fm("wire", "none"), n |-> 2] }
+HintLists == { <<d>> : d \in Deleg } \cup { <<d, e>> : d \in Deleg, e \in DelegFew } \cup { <<e, d>> : e \in DelegFew, d \in Deleg }
+             \cup (IF Thorough THEN { <<d, e>> : d \in Deleg, e \in Deleg } \cup { <<e, d, e2>> : e \in DelegFew, d \in Deleg, e2 \in DelegFew }
+                    ELSE {})
+FormsHint == { [BaseI EXCEPT !.fh = [i \in 1..Len(h) |-> NameOfAt(i, h[i].n)], !.rep.fh = [i \in 1..Len(h) |-> h[i].f]] : h \in HintLists }
+SgKl(s, kl) == [s EXCEPT !.haskl = TRUE, !.kl = kl]
+FormsKl == { [WithPayload(BaseOf(k), 3) EXCEPT !.sg = SgKl(s, NameOf(n)), !.rep.kl = f] :
+               k \in Kinds, f \in NameForms, n \in Counts,
+               s \in {SgHmac, SgSyn(8, 5)} \cup (IF Thorough THEN {SgEc(71), SgRsa, SgEd} ELSE {}) }
+FormsBin == { [BaseD EXCEPT !.meta = Meta(1, 0, 3), !.content = 5, !.rep.fbi = x, !.rep.pay = y, !.sg = s] :
+                x \in BinForms, y \in BinForms, s \in {NoSg, SgHmac} }
+            \cup { [BaseI EXCEPT !.app = 5, !.rep.pay = y] : y \in BinForms }
+Forms == FormsName \cup FormsHint \cup FormsKl \cup FormsBin
+
+CfgSpace == Forms \cup BadDigest \cup FieldsI \cup FieldsD \cup WidthsI \cup WidthsD \cup Bound \cup Names \cup LongName
 =============================================================================
